@@ -37,8 +37,8 @@ func evStr(vals ...ref.Val) string {
 	return e.String()
 }
 
-func sv(s string) ref.Val  { return ref.Val{V: s, T: ref.TStr} }
-func iv(i int64) ref.Val   { return ref.Val{V: i, T: ref.TInt} }
+func sv(s string) ref.Val { return ref.Val{V: s, T: ref.TStr} }
+func iv(i int64) ref.Val  { return ref.Val{V: i, T: ref.TInt} }
 
 func buildMapIter(r *rand.Rand) mapIterCase {
 	n := r.Intn(7)
